@@ -32,21 +32,29 @@ theorem safe'_of {img : Image A} {c : Commit A} (hc : img.created = true) (hs : 
   | storeBlock n => exact ⟨hc, hs⟩
   | indexRows rs => exact ⟨hc, hs⟩
   | connect n fl => exact ⟨hc, hs⟩
+  | connectPrune n ps fl => exact ⟨hc, hs⟩
   | disconnect n u => exact ⟨hc, hs⟩
   | utxoFlush u m => exact ⟨hc, hs⟩
 
 /-! ### monotone parts of an image -/
 
+/-- Commits that delete block files. -/
+def isPrune : Commit A → Bool
+  | .connectPrune _ _ _ => true
+  | _ => false
+
 theorem apply_created {img : Image A} (c : Commit A) (h : img.created = true) : (apply img c).created = true := by
   cases c with
   | connect n fl => cases fl <;> exact h
+  | connectPrune n ps fl => cases fl <;> exact h
   | create => rfl
   | _ => exact h
 
-theorem apply_stored_mono {img : Image A} (c : Commit A) {x : Chain} (h : x ∈ img.stored) :
-    x ∈ (apply img c).stored := by
+theorem apply_stored_mono {img : Image A} (c : Commit A) (hnp : isPrune c = false) {x : Chain}
+    (h : x ∈ img.stored) : x ∈ (apply img c).stored := by
   cases c with
   | connect n fl => cases fl <;> exact h
+  | connectPrune n ps fl => simp [isPrune] at hnp
   | create => exact List.mem_cons_of_mem _ h
   | storeBlock n => exact List.mem_cons_of_mem _ h
   | _ => exact h
@@ -55,6 +63,7 @@ theorem apply_rows_mono {img : Image A} (c : Commit A) {x : Chain} (h : x ∈ ke
     x ∈ keys (apply img c).rows := by
   cases c with
   | connect n fl => cases fl <;> exact h
+  | connectPrune n ps fl => cases fl <;> exact h
   | create => exact mem_keys_upsert.mpr (Or.inr h)
   | indexRows rs => exact (mem_keys_foldl_upsert rs img.rows x).mpr (Or.inl h)
   | _ => exact h
@@ -62,6 +71,9 @@ theorem apply_rows_mono {img : Image A} (c : Commit A) {x : Chain} (h : x ∈ ke
 theorem apply_marker_some {img : Image A} (c : Commit A) (h : img.marker ≠ none) : (apply img c).marker ≠ none := by
   cases c with
   | connect n fl => cases fl with
+    | none => exact h
+    | some u => simp [apply]
+  | connectPrune n ps fl => cases fl with
     | none => exact h
     | some u => simp [apply]
   | setMarker m => simp [apply]
@@ -99,7 +111,7 @@ theorem Ext.trans {a b c : Node A} (h1 : Ext a b) (h2 : Ext b c) : Ext a c :=
    fun x h => h2.2.2.2.1 x (h1.2.2.2.1 x h), List.IsPrefix.trans h1.2.2.2.2 h2.2.2.2.2⟩
 
 theorem core_step {base : Image A} {nd nd' : Node A} {c : Commit A} (h : Core base nd)
-    (hs : Safe nd.img c)
+    (hs : Safe nd.img c) (hnp : isPrune c = false)
     (himg : nd'.img = apply nd.img c) (hlog : nd'.log = nd.log ++ [c])
     (hidx : nd'.index = nd.index) (hdirty : nd'.dirty = nd.dirty)
     (htip : nd'.img.best = nd'.tip) : Core base nd' ∧ Ext nd nd' := by
@@ -119,7 +131,7 @@ theorem core_step {base : Image A} {nd nd' : Node A} {c : Commit A} (h : Core ba
               · right; rw [hdirty]; exact h1
             dirty_idx := by rw [hidx, hdirty]; exact h.dirty_idx }
   · refine ⟨?_, ?_, ?_, ?_, ?_⟩
-    · intro x hx; rw [himg]; exact apply_stored_mono c hx
+    · intro x hx; rw [himg]; exact apply_stored_mono c hnp hx
     · intro x hx; rw [hidx]; exact hx
     · intro hm; rw [himg]; exact apply_marker_some c hm
     · intro x hx; rw [himg]; exact apply_rows_mono c hx
@@ -243,11 +255,11 @@ theorem core_flushIfNeeded {base : Image A} {nd : Node A} (cfg : Cfg) (h : Core 
     Core base (flushIfNeeded cfg nd at_) ∧ Ext nd (flushIfNeeded cfg nd at_) := by
   unfold flushIfNeeded
   have hnop : Core base (emit nd .nop) ∧ Ext nd (emit nd .nop) :=
-    core_step h (c := .nop) trivial rfl rfl rfl rfl h.tip_eq
+    core_step h (c := .nop) trivial rfl rfl rfl rfl rfl h.tip_eq
   split
   · exact hnop
   · split
-    · exact core_step h (c := .utxoFlush nd.utxo at_) ⟨h.tip_eq ▸ h1, h2, h3⟩ rfl rfl rfl rfl h.tip_eq
+    · exact core_step h (c := .utxoFlush nd.utxo at_) ⟨h.tip_eq ▸ h1, h2, h3⟩ rfl rfl rfl rfl rfl h.tip_eq
     · exact hnop
 
 theorem flushIfNeeded_tip (cfg : Cfg) (nd : Node A) (a : Chain) : (flushIfNeeded cfg nd a).tip = nd.tip := by
@@ -269,6 +281,6 @@ theorem core_flushRequired {base : Image A} {nd : Node A} (h : Core base nd) (h3
   exact core_step h (c := .utxoFlush nd.utxo nd.tip)
     ⟨h.tip_eq ▸ List.suffix_refl _, by
       have := List.IsSuffix.length_le h.inv.marker_anc
-      rw [h.tip_eq] at this; exact this, h3⟩ rfl rfl rfl rfl h.tip_eq
+      rw [h.tip_eq] at this; exact this, h3⟩ rfl rfl rfl rfl rfl h.tip_eq
 
 end BV.C04
